@@ -99,3 +99,24 @@ pub const COLORS: [dds::ColorFormat; 12] = [
     dds::ColorFormat::RGB_U8, dds::ColorFormat::RGB_U16, dds::ColorFormat::RGB_F32,
     dds::ColorFormat::RGBA_U8, dds::ColorFormat::RGBA_U16, dds::ColorFormat::RGBA_F32,
 ];
+
+// ---- watchdog: a call that does not return is reported and the harness stops with what it has
+use std::sync::{Mutex, OnceLock};
+static WATCH: Mutex<Option<(std::time::Instant, String)>> = Mutex::new(None);
+pub static OUT_PATH: OnceLock<String> = OnceLock::new();
+pub fn watchdog_start() {
+    std::thread::spawn(|| loop {
+        std::thread::sleep(std::time::Duration::from_millis(250));
+        let g = WATCH.lock().unwrap();
+        if let Some((deadline, what)) = g.as_ref() {
+            if std::time::Instant::now() > *deadline {
+                println!("IMPL-VIOLATION hang: the call did not return in time: {what}");
+                if let Some(p) = OUT_PATH.get() { let _ = std::fs::write(p, "# aborted by the watchdog\n"); }
+                println!("STATS {{\"aborted_by_watchdog\":1}}");
+                std::process::exit(0);
+            }
+        }
+    });
+}
+pub fn watch(secs: u64, what: String) { *WATCH.lock().unwrap() = Some((std::time::Instant::now() + std::time::Duration::from_secs(secs), what)); }
+pub fn unwatch() { *WATCH.lock().unwrap() = None; }
